@@ -3,7 +3,8 @@ sys.path.insert(0, os.path.dirname(os.path.abspath(__file__)))
 import seqfam, vlib
 
 PIPE = os.path.join(vlib.VERIF, "spec", "pipe")
-ASSUME = ["a sink re-entering Emit is not combined with the blocking strategy (it would wait on the very goroutine that runs it)",
+ASSUME = ["a sink blocked for longer than the grace period is abandoned by Stop: in that scenario only 'Stop returns within its grace period' and 'no deadlock' are judged (the abandoned goroutine resumes when the sink is released)",
+          "a sink re-entering Emit is not combined with the blocking strategy (it would wait on the very goroutine that runs it)",
           "decided: no panic escaping an API call, no deadlock (30 s watchdog), Stop within grace, no sink invocation beginning after Stop returned, CEP flush before return, no engine-started goroutine left 3 s after Stop",
           "NOT decided by this technique: freedom from data races on memory (a memory-model property of the Go program)",
           "sequence numbers are taken as the first statement of a sink and right after an API call returns"]
@@ -17,6 +18,8 @@ def run(tier):
     scen = []
     for kind in ("direct", "analytic"):
         scen.append({"kind": kind, "strategy": "drop", "sinks": "fast", "directed": "syncstop"})
+    for kind in ("direct", "count", "analytic", "cep"):      # a synchronous sink blocked beyond the grace period: Stop returns all the same
+        scen.append({"kind": kind, "strategy": "drop", "sinks": "fast", "directed": "stopgrace"})
     for kind in KINDS:
         for strat in ("drop", "block", "expand"):
             scen.append({"kind": kind, "strategy": strat, "sinks": "fast", "directed": "afterstop"})
@@ -27,7 +30,7 @@ def run(tier):
         for kind, strat, sinks in combos:
             scen.append({"kind": kind, "strategy": strat, "sinks": sinks,
                          "workers": rng.choice([4, 6, 8]), "ops": rng.choice([100, 200] if quick else [300, 1000]), "seed": rng.randrange(1 << 30)})
-    seqfam.run_scenarios(res, scen, "TraceLifecycle", spec_dir=PIPE, tag="life", sub="life", timeout=3000)
+    seqfam.run_scenarios(res, scen, "TraceLifecycle", spec_dir=PIPE, tag="life", sub="life", timeout=3000, procs=8)   # one scenario at a time per process (goroutine accounting); they mostly wait (settling, grace)
     res.cov["exhaustive"] = False
     res.cov["distinct_nontrivial"] = len({json.dumps(s, sort_keys=True) for s in scen})
     res.cov["rule"] = ("directed schedules from the TLA+ Lifecycle model (an EmitSync inside its first synchronous sink while Stop runs to completion; Emit/EmitSync/GetStats/TriggerWindow/second Stop after Stop returned) for every query kind x strategy, "
